@@ -1040,6 +1040,26 @@ func exec(op string) string {
 			return "q=0"
 		}
 		return fmt.Sprintf("q=%d", len(ct.loc.GetChanEvent()))
+	case "n":
+		// subscriber count of one name as the centre itself reports it (light centre: GetSubscribeNum / HasSubscribers;
+		// the local centre has no such call)
+		c, okC := hx.KV(ws, "c")
+		e, okE := hx.KV(ws, "e")
+		cn, ok1 := atoi(c)
+		en, ok2 := atoi(e)
+		if !okC || !okE || !ok1 || !ok2 {
+			return "bad-op"
+		}
+		ct := k.centre(cn)
+		if ct == nil {
+			return "bad"
+		}
+		if ct.lt == nil {
+			return "n=-"
+		}
+		return hx.Guard(func() string {
+			return fmt.Sprintf("n=%d h=%d", ct.lt.GetSubscribeNum(k.name(en)), hx.B2i(ct.lt.HasSubscribers(k.name(en))))
+		})
 	case "rs":
 		return hx.Guard(func() string { return rsCase(hx.KVInt(ws, "n"), hx.KVInt(ws, "burst")) })
 	case "concfull":
@@ -1250,6 +1270,69 @@ func (g *gen) genCase() []string {
 			lines = append(lines, fmt.Sprintf("do ops=p.%d.%d.%d", c, e, 1))
 		}
 		lines = append(lines, fmt.Sprintf("drain c=%d n=50", c))
+		if r.Intn(2) == 0 {
+			h.Count("op.subscriber-count")
+			lines = append(lines, fmt.Sprintf("n c=%d e=%d", c, g.ev()))
+		}
+	}
+	return lines
+}
+
+// leaveReturnCase: one-shot listeners. While a name is being delivered its listeners leave (unsubscribe themselves or
+// one another, so that nobody may be left), the name is published again from inside the listener (a nested delivery
+// to whoever is left - possibly to nobody), and listeners come (back): fresh templates are subscribed to the same
+// name before the outer listener returns, some of them leave again at once. All of it in any order, 1-3 listeners,
+// local / channel-mode / light centres. Afterwards the subscriber count is asked for and the name is published twice:
+// whoever subscribed and did not leave must be counted and called.
+func (g *gen) leaveReturnCase() []string {
+	h, r := g.h, g.h.R
+	h.Count("family.leave-and-return-inside-listener")
+	kind := []string{"T", "T", "L", "C", "T,L"}[r.Intn(5)]
+	lines := []string{"reset cs=" + kind}
+	n := 1 + r.Intn(3)
+	if r.Intn(2) == 0 {
+		n = 1
+	}
+	fresh := n + 1
+	var lastFresh int
+	for t := 1; t <= n; t++ {
+		var sc []string
+		steps := 2 + r.Intn(4)
+		for i := 0; i < steps; i++ {
+			switch x := r.Intn(11); {
+			case x < 3:
+				sc = append(sc, fmt.Sprintf("u.0.1.%d", t))
+			case x < 4:
+				sc = append(sc, fmt.Sprintf("u.0.1.%d", 1+r.Intn(n)))
+			case x < 7:
+				sc = append(sc, fmt.Sprintf("p.0.1.%d", 20+r.Intn(10)))
+			case x < 10 && fresh <= 14:
+				sc = append(sc, fmt.Sprintf("s.0.1.%d.%d", fresh, r.Intn(2)))
+				lastFresh = fresh
+				fresh++
+			case lastFresh > 0:
+				sc = append(sc, fmt.Sprintf("u.0.1.%d", lastFresh))
+			}
+		}
+		lines = append(lines, fmt.Sprintf("def t=%d b=%d f=%d s=%s", t, t, 7+t, strings.Join(sc, ";")))
+	}
+	for t := n + 1; t < fresh; t++ {
+		f := 7 + t
+		if f > 15 {
+			f = r.Intn(8)
+		}
+		sc := ""
+		if r.Intn(3) == 0 {
+			sc = fmt.Sprintf("u.0.1.%d", t) // a one-shot listener itself
+		}
+		lines = append(lines, fmt.Sprintf("def t=%d b=%d f=%d s=%s", t, t, f, sc))
+	}
+	for t := 1; t <= n; t++ {
+		lines = append(lines, fmt.Sprintf("do ops=s.0.1.%d.%d", t, r.Intn(2)))
+	}
+	lines = append(lines, "n c=0 e=1")
+	for i := 0; i < 2; i++ {
+		lines = append(lines, fmt.Sprintf("do ops=p.0.1.%d", r.Intn(10)), "drain c=0 n=50", "n c=0 e=1")
 	}
 	return lines
 }
@@ -1701,6 +1784,8 @@ func TestRun(t *testing.T) {
 			lines = g.sharedCase()
 		case x >= 72:
 			lines = g.swapCase()
+		case x >= 68 && x < 71:
+			lines = g.leaveReturnCase()
 		case x == 71:
 			// concurrent publishers at the queue limit, looking at the queue in lockstep
 			h.Count("family.concurrent-at-queue-limit")
